@@ -765,6 +765,7 @@ def tables_snap(c):
         "transport_args": dc_fields(c._base_transport_args),
         "generic_driver_mode": getattr(c, "_generic_driver_mode", None),
         "default_desired_privilege_level": getattr(c, "default_desired_privilege_level", None),
+        "current_priv_level": lvl_snap(c._current_priv_level) if hasattr(c, "_current_priv_level") else None,
     }
 
 
@@ -782,6 +783,14 @@ def owned_ids(c):
         ids.add(id(f))
     if hasattr(c, "_priv_graph"):
         ids.add(id(c._priv_graph))
+    cur = getattr(c, "_current_priv_level", None)
+    if cur is not None:
+        import scrapli.driver.network.base_driver as nb
+        # the module-level dummy is the one object known to be shared by all connections (finding C18-shared-dummy-priv-level, exhibited by
+        # the history operation "u"); anything else a connection's _current_priv_level refers to must be its own
+        if cur is not nb.DUMMY_PRIV_LEVEL:
+            ids.add(id(cur))
+            ids.add(id(cur.not_contains))
     return ids
 
 
@@ -878,8 +887,13 @@ def _mutate(op, c):
         c.privilege_levels.pop(op[2], None)
         c.update_privilege_levels()
     elif k == "n":
-        c.privilege_levels[op[2]] = PrivilegeLevel(r"^new>$", op[2], "", "", "", False, "")
+        c.privilege_levels[op[2]] = PrivilegeLevel(NEW_LEVEL[0], op[2], *NEW_LEVEL[1:])
         c.update_privilege_levels()
+    elif k == "u":
+        # in-place edit through the (private) _current_priv_level attribute: before any privilege level has been
+        # acquired this is the module-level DUMMY_PRIV_LEVEL object of every connection (finding C18-shared-dummy-priv-level)
+        c._current_priv_level.pattern = "^edited-through-current$"
+        c._current_priv_level.not_contains.append("u")
     elif k == "t":
         c._base_transport_args.transport_options["k"] = "v"
     elif k == "p":
@@ -892,7 +906,8 @@ def _mutate(op, c):
         c.comms_return_char = "\r"
 
 
-MODELLED = ("c", "r", "e", "fa", "fc")
+MODELLED = ("c", "r", "e", "fa", "fc", "d", "n")
+NEW_LEVEL = (r"^new>$", "", "", "", False, "")   # the level assigned by op "n": PrivilegeLevel(pattern, <name>, previous_priv, deescalate, escalate, escalate_auth, escalate_prompt)
 
 
 def enc_level(key, snap):
@@ -923,6 +938,12 @@ def enc_op(op):
         return f"fa:{i}:{hx(op[2])}"
     if k == "fc":
         return f"fc:{i}"
+    if k == "d":
+        return f"d:{i}:{hx(op[2])}"
+    if k == "n":
+        snap = (("pattern", NEW_LEVEL[0]), ("name", op[2]), ("previous_priv", NEW_LEVEL[1]), ("deescalate", NEW_LEVEL[2]),
+                ("escalate", NEW_LEVEL[3]), ("escalate_auth", NEW_LEVEL[4]), ("escalate_prompt", NEW_LEVEL[5]), ("not_contains", ()))
+        return f"n:{i}:{enc_level(op[2], snap)}"
     raise ValueError(op)
 
 
@@ -941,6 +962,9 @@ def restore_globals():
         m.PRIVS.clear()
         m.PRIVS.update(copy.deepcopy(privs))
         m.FAILED_WHEN_CONTAINS[:] = list(fwc)
+    import scrapli.driver.network.base_driver as nb
+    for slot, v in PRISTINE["DUMMY"]:
+        setattr(nb.DUMMY_PRIV_LEVEL, slot, list(v) if slot == "not_contains" else v)
 
 
 def iso_eval(ops, plats_factory, probe=True, share=True):
@@ -1022,7 +1046,8 @@ def iso_history(ck, ops, plats_factory, lines, pending, matcher, probe=True):
             tags=("kind=isolation", f"len={min(len(ops), 12)}", f"conns={nconn}", "modelled" if modelled else "oracle-only")
             + tuple(sorted({"op=" + o[0] for o in ops})))
     if r["viols"]:
-        if not ck.violations:
+        first = {"kind": "isolation", **ops_desc(r["ops"]), **r["viols"][0][2]}
+        if not ck.violations and matcher(first) is None:
             small = shrink_iso(r["ops"], r["viols"][0][0], plats_factory)
             r2 = iso_eval(small, plats_factory, probe=False, share=(r["viols"][0][0] == "shared-object"))
             if r2["viols"]:
@@ -1166,6 +1191,8 @@ def setup_live():
     REAL_COMMUNITY = tuple(real)
     for p, m in core_modules().items():
         PRISTINE[p] = (copy.deepcopy(m.PRIVS), list(m.FAILED_WHEN_CONTAINS))
+    import scrapli.driver.network.base_driver as nb
+    PRISTINE["DUMMY"] = lvl_snap(nb.DUMMY_PRIV_LEVEL)
 
 
 def gen_factory_cases(ck, tier, tmpfile):
@@ -1323,6 +1350,9 @@ def gen_iso_histories(ck, tier):
                 out.append(h + [("d", 0, lvl), ("n", 1, "brand-new"), ("t", 0), ("p", 1), ("g", 0), ("x", 1), ("c", 0, s2), ("r", 0, "z")])
     for nm in names:
         out.append([("c", 0, E), ("c", 1, ("direct", "cisco_nxos", False)), ("r", 0, nm), ("r", 1, nm), ("r", 0, nm)])
+    # the shared dummy level (known finding): every platform pair, edit through connection 0's _current_priv_level
+    for p1, p2 in (("cisco_iosxe", "arista_eos"), ("juniper_junos", "juniper_junos"), ("acme_netos", "cisco_nxos")):
+        out.append([("c", 0, ("factory", p1, False)), ("c", 1, ("factory", p2, True)), ("e", 0, "exec", "^mine$", None), ("u", 0)])
     # random histories over all platforms, up to 4 connections
     nrand = 250 if tier == "quick" else 15000
     specs = [(v, p, a) for p in CORE + ISO_COMMUNITY for v in ("direct", "factory") for a in (False, True) if not (v == "direct" and p not in CORE)]
@@ -1351,13 +1381,28 @@ def gen_iso_histories(ck, tier):
                 h.append(("d", i, lv))
             elif r < 0.86:
                 h.append(("n", i, rng.choice(["new1", "exec"])))
-            else:
+            elif r < 0.97:
                 h.append((rng.choice(["t", "p", "g", "x"]), i))
+            else:
+                h.append(("u", i))
         out.append(h)
     return out
 
 
+F27 = "C18-shared-dummy-priv-level"
+
+
 def matcher(case):
+    """finding C18-shared-dummy-priv-level only: the failing step is the in-place edit through `_current_priv_level` (operation "u") and what changed is the
+    module-level DUMMY level or another connection's `current_priv_level` view — nothing else"""
+    if case.get("kind") != "isolation" or "failed_at_step" not in case:
+        return None
+    ops = case.get("ops") or []
+    n = case["failed_at_step"]
+    if not (0 <= n < len(ops)) or ops[n][0] != "u":
+        return None
+    if case.get("changed") == "DUMMY" or case.get("changed") == ["current_priv_level"]:
+        return F27
     return None
 
 
@@ -1475,6 +1520,16 @@ def run(tier, seed):
         if tier == "thorough":
             ck.leanchecker("ScrapliProps.C18")
         setup_live()
+        own = VERIF / "findings" / "C18.json"
+        if own.exists():   # until the lead has merged it into known_findings.json
+            have = {f["id"] for f in ck.findings}
+            ck.findings += [f for f in json.load(open(own)) if f["id"] not in have]
+        for f in ck.findings:
+            if f.get("status") == "open" and f["id"] == F27:
+                w = [tuple(tuple(x) if isinstance(x, list) else x for x in o) for o in f["witness"]["ops"]]
+                r = iso_eval(w, make_synthetic, probe=False, share=False)
+                if any(matcher({"kind": "isolation", **ops_desc(r["ops"]), **more}) == F27 for _, _, more in r["viols"]):
+                    ck.known_finding(F27, f["what"])
         corpus = json.load(open(VERIF / "corpus" / "C18" / "corpus.json"))
         fac_cases = [undescribe(c["case"], tmp.name) for c in corpus if c["kind"] == "factory"]
         iso_cases = [[tuple(tuple(x) if isinstance(x, list) else x for x in o) for o in c["ops"]] for c in corpus if c["kind"] == "isolation"]
